@@ -1,7 +1,9 @@
 CONSTANTS
+  Strict = TRUE
   Variant = "from_now"
   MaxMoves = 2
   CfgSel = {"weekly"}
+  StartSel = {1, 2}
 SPECIFICATION MSpec
 CONSTRAINT Bound
 VIEW View
